@@ -364,6 +364,13 @@ def workload(ctx, repo):
         if k % 401 in (0, 7):
             ctx.sample(case)
         run_case(ctx, repo, case)
+        if k % 4 == 0 and case["op"] in ("tz", "utc"):
+            tw = gen.twin_of(rng, mode, case["p"])
+            if tw is not None:
+                case = dict(case, p=tw)
+                ctx.case = case
+                ctx.ev("cases.twin")
+                run_case(ctx, repo, case)
     case = {"op": "tzstr", "mode": "gregorian",
             "zones": [list(o) for o in offs[::(29 if ctx.tier == "quick"
                                                 else 1)]]}
